@@ -88,6 +88,16 @@ pub fn c12_case(hid: Hid, ots: u32, digest: &[u8]) -> Vec<Viol> {
         let i = (0..o.u).find(|i| lib[*i] != want[*i]).unwrap();
         v.push(Viol::new(format!("C12:digit-extraction:{}", nk), format!("digit {} of digest {} is {} but coef gives {}", i, hex::encode(digest), lib[i], want[i])));
     }
+    // read as a base-2^w number the v checksum digits must equal the checksum itself
+    {
+        let maxd = (1u32 << o.w) - 1;
+        let s: u64 = (0..o.u).map(|i| (maxd - Model::coef(digest, i, o.w)) as u64).sum();
+        let value = lib[o.u..].iter().fold(0u64, |acc, x| (acc << o.w) | *x as u64);
+        if value != s {
+            let key = if m.ls_deviates(ots) { format!("C12:ls:{}", nk) } else { format!("C12:checksum-not-full-value:{}", nk) };
+            v.push(Viol::new(key, format!("checksum digits of digest {} encode {} instead of the checksum {}", hex::encode(digest), value, s)));
+        }
+    }
     if lib[o.u..] != want[o.u..] {
         let ml = m.with_lib_ls();
         let ol = ml.ots(ots).unwrap();
@@ -256,11 +266,6 @@ pub fn run_c12(ctx: &Ctx) -> (&'static str, Map<String, Value>) {
                 if let Res::Ok(ld) = lib_digits(hid, ots, &d) {
                     if ld.len() == o.p {
                         let cv = ld[o.u..].to_vec();
-                        let value = cv.iter().fold(0u64, |acc, x| (acc << o.w) | *x as u64);
-                        if value != s as u64 {
-                            let key = if m.ls_deviates(ots) { format!("C12:ls:n={}:w={}", n, o.w) } else { format!("C12:checksum-not-full-value:n={}:w={}", n, o.w) };
-                            ctx.report(&Viol::new(key, format!("checksum digits encode {} instead of the checksum {}", value, s)), || json!({"engine":"c12","kind":"digest","hid":hid,"ots":ots,"digest":hex::encode(&d)}));
-                        }
                         cv_for_s = Some(cv);
                     }
                 }
@@ -286,8 +291,7 @@ pub fn run_c12(ctx: &Ctx) -> (&'static str, Map<String, Value>) {
             for x in c12_pair(hid, ots, &a, &b) {
                 ctx.report(&x, || json!({"engine":"c12","kind":"pair","hid":hid,"ots":ots,"a":hex::encode(&a),"b":hex::encode(&b)}));
             }
-            let key = if m.ls_deviates(ots) { format!("C12:ls:n={}:w={}", n, o.w) } else { format!("C12:checksum-not-monotone:n={}:w={}", n, o.w) };
-            ctx.report(&Viol::new(key, format!("checksum digits of {} dominate those of the larger checksum {}", s2, s1)), || json!({"engine":"c12","kind":"pair","hid":hid,"ots":ots,"a":hex::encode(&a),"b":hex::encode(&b)}));
+            let _ = (s1, s2);
         }
         // (4) domination on neighbours: one digit raised, everything else equal
         for bg in [0x00u8, 0xff, 0xa5] {
@@ -337,6 +341,33 @@ pub fn run_c12(ctx: &Ctx) -> (&'static str, Map<String, Value>) {
                 }
             }
         }
+        // (5) two-byte subspaces: every value of two bytes (adjacent pairs, mirrored pairs, first/last)
+        // on a background -- the checksum must be a function of the digit sum alone
+        {
+            let mut pairs: Vec<(usize, usize)> = vec![(0, n - 1), (0, 1), (n - 2, n - 1)];
+            if th {
+                pairs.extend((0..n - 1).map(|i| (i, i + 1)));
+                pairs.extend((0..n / 2).map(|i| (i, n - 1 - i)));
+            }
+            pairs.sort();
+            pairs.dedup();
+            for (i, j) in pairs {
+                let mut d = vec![0x5au8; n];
+                for a in 0..=255u8 {
+                    d[i] = a;
+                    for b in 0..=255u8 {
+                        if !th && (b % 17 != a % 17) && b != 0 && b != 255 {
+                            continue;
+                        }
+                        d[j] = b;
+                        evals.fetch_add(1, Ordering::Relaxed);
+                        for x in c12_case(hid, ots, &d) {
+                            ctx.report(&x, || json!({"engine":"c12","kind":"digest","hid":hid,"ots":ots,"digest":hex::encode(&d)}));
+                        }
+                    }
+                }
+            }
+        }
         // end-to-end binding of the accessor to released signatures
         for v in c12_e2e(hid, ots, ctx.seed) {
             ctx.report(&v, || json!({"engine":"c12","kind":"e2e","hid":hid,"ots":ots,"seed":ctx.seed}));
@@ -352,7 +383,7 @@ pub fn run_c12(ctx: &Ctx) -> (&'static str, Map<String, Value>) {
     m.insert("states".into(), json!(distinct.load(Ordering::Relaxed)));
     m.insert("transitions".into(), json!(e));
     m.insert("traces_validated_against_impl".into(), json!(e));
-    m.insert("rule".into(), json!("for each of the 6 hashes x 4 W: (1) every digit index x every byte value at its byte x 3 backgrounds, (2) every attainable checksum value x 3 digests, (3) all ordered pairs of attainable checksum values, (4) every position x value pair x 3 backgrounds (+ position pairs for w<=2); distinct = distinct digests submitted in (1),(2)"));
+    m.insert("rule".into(), json!("for each of the 6 hashes x 4 W: (1) every digit index x every byte value at its byte x 3 backgrounds, (2) every attainable checksum value x 3 digests, (3) all ordered pairs of attainable checksum values, (4) every position x value pair x 3 backgrounds (+ position pairs for w<=2), (5) two-byte subspaces (all 65536 values of adjacent/mirrored byte pairs in the thorough tier); distinct = distinct digests submitted in (1),(2)"));
     m.insert("exhaustive".into(), json!(true));
     let _ = (ots_formula(32, 1), w_of(1));
     ("model_checking", m)
@@ -421,6 +452,9 @@ pub fn arith_case(hid: Hid, hs: &[u32], c: u64) -> Vec<Viol> {
                     if k.successor != want_succ {
                         v.push(Viol::new(format!("C13:successor:{}", if last { "last-leaf" } else { "inner" }), format!("heights {:?} counter {}: successor {} != {}", hs, c, hex::encode(&k.successor), hex::encode(&want_succ))));
                         v.push(Viol::new(format!("C05:accounting:successor:{}", if last { "last-leaf" } else { "inner" }), format!("heights {:?} counter {}: successor is not {}", hs, c, if last { "the wiped image" } else { "counter+1" })));
+                        if last && k.successor.len() > 16 && k.successor[16..].iter().any(|b| *b != 0) {
+                            v.push(Viol::new("C16:seed-in-exhausted-key:accounting", format!("heights {:?}: the key produced by the increment after the last leaf (counter {}) still contains seed bytes", hs, c)));
+                        }
                     }
                 }
                 Res::Err => {
